@@ -550,6 +550,8 @@ Init == \E k \in Kinds \cup {PI}, st \in Styles, e \in Entries, pos \in {"op", "
              \* C11 thorough: the less common spellings (./, sub/.., file://, https://, //host) with the Core shapes
              /\ (Tier = "thorough" /\ Allows = BOOLEAN /\ st \notin {"plain", "abspath", "http"} => sh.shape \in Core)
              /\ (e = "uri_remote" => st \in RelStyles)
+             \* (the reader is asked for a remote location in its escaped spelling, which Trace_C11!ReadName does not model: percent names stay on files)
+             /\ (sh.shape \in {"pctname", "pctname_whole", "spacename", "pctdir"} => st \in RelStyles \cup {"abspath", "fileurl"} /\ e # "uri_remote")
              /\ (e \in {"file_abs_retry", "resolvein_retry"} => al)
              /\ (e \in HistoryEntries => st \in RelStyles \cup {"abspath"} /\ (pos = "op2" => e = "resolvein_again"))
              /\ (sh.shape = "samepath_twohosts" => e # "file_rel_default")      \* the library's default reader cannot be made to serve a second host
